@@ -39,7 +39,7 @@ static const unsigned PAGES[NCFG]      = { 16, 8, 32, 16 };
 #define MAXPAGE 32
 #define ASIZE   8          /* sizeof(std::uint8_t*) on the checked target */
 #define MAXW    20         /* ATT_MTU 23 - 3 */
-#define MAXRX   128
+#define MAXRX   80
 
 enum { OPC_GET_VERSION, OPC_GET_CRC, OPC_GET_SIZES, OPC_START_FLASH, OPC_STOP_FLASH, OPC_FLUSH, OPC_START, OPC_RESET, OPC_READ };
 
@@ -67,8 +67,11 @@ static uint64_t mix(uint64_t x) { x ^= x >> 31; x *= 0x9E3779B97F4A7C15ull; x ^=
 void* memmove(void* d, const void* s, size_t n)
 {
     uint8_t* dp = (uint8_t*)d; const uint8_t* sp = (const uint8_t*)s;
-    if ((uintptr_t)dp - (uintptr_t)sp >= n) { for (size_t i = 0; i < n; ++i) dp[i] = sp[i]; }
-    else { for (size_t i = n; i > 0; --i) dp[i - 1] = sp[i - 1]; }
+    __CPROVER_assert(n <= MAXPAGE, "VFCHECK memmove: the bootloader never copies more than a page at once");
+    /* source and destination are always different objects here (written value -> page buffer, version text -> output),
+     * asserted, so a forward copy is memmove; no pointer/integer casts (they force CBMC's numeric address encoding) */
+    __CPROVER_assert(n == 0 || __CPROVER_POINTER_OBJECT(d) != __CPROVER_POINTER_OBJECT(s), "VFCHECK memmove: source and destination are distinct objects");
+    for (size_t i = 0; i < MAXPAGE && i < n; ++i) dp[i] = sp[i];
     return d;
 }
 #endif
@@ -99,7 +102,7 @@ static uint8_t  rx[MAXRX];
 static uint32_t pc[MAXRX + 1];      /* checksum chain: pc[0] = crc(start address), pc[n+1] = crc(pc[n], rx[n]) */
 
 /* one entry per start_flash() call: what the progress notification for it has to announce */
-#define MAXFLASH 16
+#define MAXFLASH 8
 static unsigned flash_calls, progress_calls;
 static uint32_t fl_crc[MAXFLASH];
 static unsigned fl_cons[MAXFLASH];
@@ -315,6 +318,7 @@ void harness(void)
     PAGE = PAGES[cfg];
     int k = (int)CASE(K);
     unsigned long ops = (unsigned long)CASE(OPS);
+    long off = (long)CASE(OFF);
     unsigned xlen = (unsigned)CASE(XLEN), dlen = (unsigned)CASE(DLEN), dlen2 = (unsigned)CASE(DLEN2);
 
     const unsigned cp_len[4] = { 1, 1 + ASIZE, 1 + 2 * ASIZE, xlen };
@@ -327,6 +331,9 @@ void harness(void)
             unsigned len = cp_len[op - 1];
             uint8_t* v = (uint8_t*)vf_alloc(len);
             in_bytes(v, len);
+            /* partition of the address space by the offset inside a page: OFF = address % PageSize of a one-address
+             * parameter (Start Flash); all other address bits stay symbolic.  OFF < 0: no partition. */
+            if (off >= 0 && len == 1 + ASIZE) v[1] = (uint8_t)((v[1] & ~(PAGE - 1)) | (unsigned)off);
             do_cp(v, len);
         } else if (op == 5 || op == 6) {
             unsigned len = d_len[op - 5];
